@@ -36,7 +36,9 @@ EXHAUSTIVE_NOTE = ("param variant: every schedule of N assignments (coroutine / 
 KINDS = ["coro", "agen1", "agen2", "plain", "sref", "bad"]
 # sref = a synchronous reference (a Parameter of another object); bad = an assignment that is rejected (wrong type) and
 # therefore must change nothing: whatever was pending stays pending and still wins
-NFUT = {"coro": 1, "agen1": 1, "agen2": 2, "plain": 0, "sref": 0, "bad": 0}
+NFUT = {"coro": 1, "agen1": 1, "agen2": 2, "plain": 0, "sref": 0, "bad": 0, "corobad": 1}
+# corobad = a coroutine whose *result* is rejected by the parameter (not a string): the delivery fails inside its task and
+# changes nothing; whatever is assigned afterwards is newer all the same
 
 
 def _schedules(kinds):
@@ -79,6 +81,12 @@ def enumerate_cases(tier):
                     if not drain and n == 1:
                         continue
                     yield {"variant": "param", "kinds": list(kinds), "steps": sched, "drain_after_assign": drain}
+    # --- a coroutine whose result is rejected, followed by newer assignments (complete for these kind tuples) ----------
+    for kinds in (("corobad", "plain"), ("corobad", "coro"), ("corobad", "coro", "plain"), ("corobad", "agen1", "plain"),
+                  ("coro", "corobad", "plain"), ("corobad", "corobad", "coro"), ("plain", "corobad", "coro")):
+        for sched in _schedules(kinds):
+            for drain in (True, False):
+                yield {"variant": "param", "kinds": list(kinds), "steps": sched, "drain_after_assign": drain}
     # --- update() context installing an asynchronous reference (complete) -----------------------------------------
     for kind in ("coro", "agen"):
         for before in ("default", "plain"):
@@ -117,7 +125,7 @@ def enumerate_cases(tier):
 def _case(draw):
     variant = draw(st.sampled_from(["param", "rx", "rx"]))
     if variant == "param":
-        kinds = draw(st.lists(st.sampled_from(KINDS), min_size=4, max_size=4))
+        kinds = draw(st.lists(st.sampled_from(KINDS + ["corobad"]), min_size=4, max_size=4))
     else:
         # one pipeline pipes either through a coroutine function or through an async generator function
         k = draw(st.sampled_from(["coro", "coro", "agen2"]))
@@ -142,7 +150,10 @@ def _case(draw):
             seq.append(["resolve", c[1], nextf[c[1]]])
             nextf[c[1]] += 1
     case = {"variant": variant, "kinds": kinds, "steps": seq, "drain_after_assign": draw(st.booleans())}
-    if variant == "rx" and draw(st.booleans()):
+    if variant == "rx" and kinds[0] == "coro" and draw(st.booleans()):
+        # the coroutines of some superseded updates fail (whenever they complete) instead of returning
+        case["fail"] = sorted(draw(st.sets(st.integers(0, n - 2), max_size=2)))
+    elif variant == "rx" and draw(st.booleans()):
         # the root may return to a value it had before (A, B, A, ...): consecutive updates differ, results are judged by value
         vals = []
         for _ in range(n):
@@ -186,6 +197,8 @@ async def _run_param(case, res):
     seen = []
     p.param.watch(lambda e: seen.append(e.new), "x")
     loop = asyncio.get_running_loop()
+    if "corobad" in kinds:
+        loop.set_exception_handler(lambda _loop, _ctx: None)     # (the rejected delivery ends its task with an error: expected)
     futs = {}
     for i, k in enumerate(kinds):
         for j in range(NFUT[k]):
@@ -199,7 +212,7 @@ async def _run_param(case, res):
             return S(v=f"s{i}").param.v
         if k == "bad":
             return 5 if i % 2 else S(v=7).param.v        # not a string: a plain value or a reference resolving to one
-        if k == "coro":
+        if k in ("coro", "corobad"):
             async def coro():
                 return await futs[(i, 0)]
             return coro
@@ -233,7 +246,7 @@ async def _run_param(case, res):
         else:
             _r, i, j = step
             if not futs[(i, j)].done():      # cancelling a task also cancels the future it awaits
-                futs[(i, j)].set_result(_result(kinds, i, j))
+                futs[(i, j)].set_result(_result(kinds, i, j) if kinds[i] != "corobad" else 5)
             await _drain()
         # a plain value stays until the next assignment
         if last_assigned is not None and kinds[last_assigned] in ("plain", "sref") and p.x != _result(kinds, last_assigned):
@@ -243,6 +256,11 @@ async def _run_param(case, res):
     await _drain(8)
     accepted = [i for i, k in enumerate(kinds) if k != "bad"]
     want = _result(kinds, accepted[-1]) if accepted else "init"
+    if accepted and kinds[accepted[-1]] == "corobad":
+        want = p.x            # (the most recent assignment delivered nothing acceptable: no claim about the value left)
+        res.label("latest_result_rejected")
+    if "corobad" in kinds:
+        res.label("coroutine_result_rejected")
     if p.x != want and not res.violations:
         res.fail("C10.latest_assignment_lost", f"kinds {kinds!r}, steps {case['steps']!r}, drain_after_assign="
                                                f"{case['drain_after_assign']}: final value {p.x!r}, the most recent assignment gives {want!r}; "
@@ -459,6 +477,10 @@ async def _run_rx(case, res):
             futs[(i, j)] = loop.create_future()
     root = param.rx(-1)
     vals = case.get("root_vals") or list(range(len(kinds)))
+    failing = set(case.get("fail") or ()) - {len(kinds) - 1}
+    if failing:
+        loop.set_exception_handler(lambda _loop, _ctx: None)     # (a failing superseded coroutine ends its task with an error)
+        res.label("superseded_coroutine_fails")
 
     # judged by value: the root holds numbers that compare equal when the value returns (A, B, A -> 1, 2, 1.0) but tell the
     # evaluation which update it belongs to
@@ -509,7 +531,10 @@ async def _run_rx(case, res):
         else:
             _r, i, j = step
             if not futs[(i, j)].done():      # cancelling a task also cancels the future it awaits
-                futs[(i, j)].set_result(_result(kinds, i, j))
+                if i in failing:
+                    futs[(i, j)].set_exception(RuntimeError(f"coroutine of update {i} failed"))
+                else:
+                    futs[(i, j)].set_result(_result(kinds, i, j))
             await _drain()
     await _drain(8)
     want = _result(kinds, len(kinds) - 1)
